@@ -663,6 +663,15 @@ theorem program_ok (k : Kind) (p : Pkt) (o : Outcome) (ops : List Op) (i j : Rid
       | [some q], h =>
         simp only [Option.some.injEq] at h; subst h
         simpa [introS, cellsOf] using two (outW 0) q (em q)
+      | [], h =>
+        simp only [Option.some.injEq] at h; subst h
+        exact ⟨echo, by simp [linkTargets], fun _ => by simp [linkTargets]⟩
+      | none :: _, h =>
+        simp only [Option.some.injEq] at h; subst h
+        exact ⟨echo, by simp [linkTargets], fun _ => by simp [linkTargets]⟩
+      | some _ :: _ :: _, h =>
+        simp only [Option.some.injEq] at h; subst h
+        exact ⟨echo, by simp [linkTargets], fun _ => by simp [linkTargets]⟩
     | oneToMany n =>
       simp only [program] at h
       cases hv : validOuts n 0 qs with
